@@ -192,8 +192,8 @@ def combo(ctx: RuleCtx, mod: T.Any) -> None:
                 f'feature choices are {ch} (init={init}); reference: enabled, disabled, auto, not settable by the constructor', mod.cls('UserFeatureOption'))
 
 
-def _bad_comprehension(text: str, coll: str, allowed: str) -> bool:
-    """`[x for x in <coll> if x not in <allowed>]` (any element variable)."""
+def _bad_comprehension(text: str, coll: str, allowed: str, inside: bool = False) -> bool:
+    """`[x for x in <coll> if x not in <allowed>]` (any element variable); with inside=True the filter is `x in <allowed>`."""
     try:
         e = ast.parse(text, mode='eval').body
     except SyntaxError:
@@ -206,7 +206,7 @@ def _bad_comprehension(text: str, coll: str, allowed: str) -> bool:
     if not isinstance(g.target, ast.Name) or norm(e.elt) != g.target.id or norm(g.iter) != coll or len(g.ifs) != 1:
         return False
     a, v = canon(g.ifs[0], True)
-    return a == Atom('in', (g.target.id, allowed)) and v is False
+    return a == Atom('in', (g.target.id, allowed)) and v is inside
 
 
 def string_array(ctx: RuleCtx, mod: T.Any) -> None:
@@ -216,7 +216,11 @@ def string_array(ctx: RuleCtx, mod: T.Any) -> None:
     sem: T.Dict[Atom, str] = {A('self.allow_dups'): 'duplicates allowed', A('self.choices'): 'has choices',
                               Atom('cmp', ('eq', *sorted((f'len({L})', f'len(set({L}))')))): 'no duplicates'}
     bad = [a for a in tab.atoms() if a.kind == 'truth' and _bad_comprehension(a.args[0], L, 'self.choices')]
-    if not bad and not any('self.choices' in repr(a) and a != A('self.choices') for a in tab.atoms()):
+    good = [a for a in tab.atoms() if a.kind == 'truth' and _bad_comprehension(a.args[0], L, 'self.choices', inside=True)]
+    for a in good:
+        sem[a] = 'some element inside choices'
+    if not bad and not any('self.choices' in repr(a) and a != A('self.choices') and a not in good for a in tab.atoms()):
+        # no condition tells whether an element is outside the choices: the outcome cannot depend on it
         bad = [Atom('truth', ('<some element is not in self.choices>',))]
     if len(bad) != 1:
         raise Undecided(f'{qn}: no condition recognised as "some element is outside self.choices" ({len(bad)} candidates)')
